@@ -189,6 +189,7 @@ def construct(ex, cls: type, args, kwargs, s: St):
         s.assume(smt.is_exc(exc.t), smt.inst_pred(cls.__name__)(exc.t))
         v = Val(exc.t, OBJ(cls.__name__) if ex.model.has_class(cls.__name__) else EXC)
         ex.exc_info[exc.t.get_id()] = {"cls": cls.__name__, "args": args, "kwargs": kwargs, "_ref": exc.t}
+        s.trace.append(("new-exc", cls.__name__))
         # declared attribute wiring of exception constructors (e.g. ExecutionError.partial_state)
         for attr, src in ex.model.ctor_fields(cls.__name__, args, kwargs).items():
             s.assume(smt.attr_func(attr)(exc.t) == to_v(src, s))
